@@ -44,8 +44,8 @@ func main() {
 		if err := run.MergePrefixed(p, "manager_"); err != nil {
 			run.Inconclusive("the manager part (reader rig) left no result: " + err.Error())
 		}
-		run.Floor("manager_cases_quiescent", run.Pick(24, 600))
-		run.Floor("manager_simultaneous_calls", run.Pick(120, 3000))
+		run.Floor("manager_cases_quiescent", run.Pick(24, 200))
+		run.Floor("manager_simultaneous_calls", run.Pick(120, 1000))
 		run.Floor("manager_duplicate_start_answered_with_error", 1)
 		run.Rule += " PLUS the manager part (counters manager_*, reader rig profile C13D): the REAL channel manager under duplicated notifications (about half of the StartReadCollection / AddPartition calls made twice at the same time, the anchor collection announced again while data flows, downstream lookups taking 0-1.5 ms): of two simultaneous calls at least one succeeds, no source vchannel is registered twice, the replicated stream is unchanged; the error with which the manager answers a start for a collection it already replicates is counted - the recording manager of this rig answers a second start the same way, and an error on the reader's error channel (the server pauses the task for it) after a double notification is a violation here."
 	}
